@@ -225,6 +225,11 @@ def run(tier, seed, replay=None):
             r = core.spec_check("Dev103Model", "Dev103Model.cfg", sc, workers=8)
             out.add_spec_run(r, "Dev103Model")
             cs = cases(tier, seed)
+            # PlusCal model of the sequences: exhaustive on the spec side, every terminal state replayed on the real
+            # sequences (identical command stream); the replayed cases are judged like all others
+            from . import seqdev
+            seqdev.model_run(out, sc)
+            cs = cs + seqdev.conformance(out, sc)
         else:
             cs = [replay["case"]["case"]]
         recs = core.pmap(run_case, cs, chunksize=64)
